@@ -572,6 +572,20 @@ func (w *worker) build(rc recipe, rq *reqRec, idx int) (payload []byte, fromServ
 			h.tx = add64(add64(base, (1<<30)<<32), (1<<30+10)<<32+int64(idx))
 		case 5:
 			h.tx = add64(add64(base, (1<<30)<<32), (1<<30-10)<<32+int64(idx))
+		case 7, 8, 9, 10:
+			// receive and transmit time each within 2^31 s of the request, but more than 2^31 s apart from
+			// each other: 7, 9 transmit long before receive (not acceptable), 8, 10 long after it
+			const year = 365 * 86400
+			far := int64(30*year) << 32
+			back := -(int64(40*year) << 32)
+			if rc.p1 >= 9 { // next to the edges of the window
+				far, back = (int64(1)<<31-100-int64(idx))<<32, -((int64(1)<<31 - 100 - int64(idx)) << 32)
+			}
+			if rc.p1 == 7 || rc.p1 == 9 {
+				h.rx, h.tx = add64(h.rx, far), add64(base, back)
+			} else {
+				h.rx, h.tx = add64(h.rx, back), add64(base, far)
+			}
 		default:
 			h.tx = add64(base, -1-int64(idx))
 		}
